@@ -18,6 +18,9 @@
  */
 #ifndef HWV_PTREE_H
 #define HWV_PTREE_H
+#ifndef _GNU_SOURCE
+#define _GNU_SOURCE
+#endif
 #include "hwv_dump.h"
 #include <hwloc/shmem.h>
 
@@ -351,8 +354,13 @@ static void hwv_observe(FILE *f, hwloc_topology_t t, int with_xml)
   if (nogp) with_xml = 0;
   hwv_dump_topology(f, t, nogp ? 1 : 0);
   fprintf(f, "thissystem %d\n", hwloc_topology_is_thissystem(t));
-  fprintf(f, "support %llx %llx %llx %llx\n", hwv_fnv(sup->discovery, sizeof(*sup->discovery)), hwv_fnv(sup->cpubind, sizeof(*sup->cpubind)),
-          hwv_fnv(sup->membind, sizeof(*sup->membind)), hwv_fnv(sup->misc, sizeof(*sup->misc)));
+  { /* every field of the four support structures (they are arrays of unsigned char) */
+    size_t k;
+    fputs("support discovery=", f); for (k = 0; k < sizeof(*sup->discovery); k++) fprintf(f, "%02x", ((const unsigned char *)sup->discovery)[k]);
+    fputs(" cpubind=", f); for (k = 0; k < sizeof(*sup->cpubind); k++) fprintf(f, "%02x", ((const unsigned char *)sup->cpubind)[k]);
+    fputs(" membind=", f); for (k = 0; k < sizeof(*sup->membind); k++) fprintf(f, "%02x", ((const unsigned char *)sup->membind)[k]);
+    fputs(" misc=", f); for (k = 0; k < sizeof(*sup->misc); k++) fprintf(f, "%02x", ((const unsigned char *)sup->misc)[k]);
+    fputc('\n', f); }
   fputs("tinfos ", f);
   for (i = 0; i < ti->count; i++) { hwv_pstr(f, ti->array[i].name); fputc('=', f); hwv_pstr(f, ti->array[i].value); fputc(';', f); }
   fputc('\n', f);
@@ -423,6 +431,51 @@ static void hwv_observe(FILE *f, hwloc_topology_t t, int with_xml)
     if (rc >= 0) { fwrite(buf, 1, (size_t)len, f); fputc('\n', f); hwloc_free_xmlbuffer(t, buf); }
   }
 }
+/* XML of a synthetic topology carrying a <support> element for EVERY support field (values 1, and a few 2/3), to be loaded with
+   HWLOC_TOPOLOGY_FLAG_IMPORT_SUPPORT by a process for which it is not "this system" */
+static char *hwv_support_xml(const char *desc, int *lenp)
+{
+  static const char *names[] = {
+    "discovery.pu", "discovery.numa", "discovery.numa_memory", "discovery.disallowed_pu", "discovery.disallowed_numa", "discovery.cpukind_efficiency",
+    "cpubind.set_thisproc_cpubind", "cpubind.get_thisproc_cpubind", "cpubind.set_proc_cpubind", "cpubind.get_proc_cpubind", "cpubind.set_thisthread_cpubind",
+    "cpubind.get_thisthread_cpubind", "cpubind.set_thread_cpubind", "cpubind.get_thread_cpubind", "cpubind.get_thisproc_last_cpu_location",
+    "cpubind.get_proc_last_cpu_location", "cpubind.get_thisthread_last_cpu_location",
+    "membind.set_thisproc_membind", "membind.get_thisproc_membind", "membind.set_proc_membind", "membind.get_proc_membind", "membind.set_thisthread_membind",
+    "membind.get_thisthread_membind", "membind.alloc_membind", "membind.set_area_membind", "membind.get_area_membind", "membind.get_area_memlocation",
+    "membind.firsttouch_membind", "membind.bind_membind", "membind.interleave_membind", "membind.weighted_interleave_membind", "membind.nexttouch_membind",
+    "membind.migrate_membind", NULL };
+  hwloc_topology_t t; char *xml = NULL, *out, *end, *p, *q; int len = 0, i; size_t o;
+  if (hwloc_topology_init(&t) < 0) return NULL;
+  if (hwloc_topology_set_synthetic(t, desc) < 0 || hwloc_topology_load(t) < 0 || hwloc_topology_export_xmlbuffer(t, &xml, &len, 0) < 0) { hwloc_topology_destroy(t); return NULL; }
+  out = malloc((size_t)len + 8192); o = 0;
+  end = strstr(xml, "</topology>");
+  /* copy without the exported <support .../> lines */
+  for (p = xml; p < end; p = q) {
+    q = strchr(p, '\n'); q = q ? q + 1 : end;
+    if (q > end) q = end;
+    if (!memmem(p, (size_t)(q - p), "<support ", 9)) { memcpy(out + o, p, (size_t)(q - p)); o += (size_t)(q - p); }
+  }
+  for (i = 0; names[i]; i++) {
+    if (i % 7 == 3) o += (size_t)sprintf(out + o, "  <support name=\"%s\" value=\"%d\"/>\n", names[i], 2 + i % 2);
+    else o += (size_t)sprintf(out + o, "  <support name=\"%s\"/>\n", names[i]);
+  }
+  o += (size_t)sprintf(out + o, "  <support name=\"custom.exported_support\"/>\n</topology>\n");
+  out[o] = 0; *lenp = (int)o + 1;
+  hwloc_free_xmlbuffer(t, xml); hwloc_topology_destroy(t);
+  return out;
+}
+/* configuration line "src synthsupport <desc>": returns 1 if handled */
+static char *hwv_supxml;
+static int hwv_config_support_line(hwloc_topology_t t, const char *line)
+{
+  int len = 0;
+  if (strncmp(line, "src synthsupport ", 17)) return 0;
+  free(hwv_supxml); hwv_supxml = hwv_support_xml(line + 17, &len);
+  unsetenv("HWLOC_THISSYSTEM");
+  printf("config synthsupport rc=%d\n", hwv_supxml ? hwloc_topology_set_xmlbuffer(t, hwv_supxml, len) : -1);
+  return 1;
+}
+
 /* observation as a malloc'd string */
 static char *hwv_observe_str(hwloc_topology_t t, int with_xml)
 {
